@@ -260,6 +260,43 @@ def d7_applies(K):
     return not K.get("names_plain", True)
 
 
+NUM_SPELLINGS = [
+    ["0.3", "3e-1", "30e-2", "0.03e1", "3E-1", "0.30", "300e-3"],
+    ["0.6", "6e-1", "60e-2", "0.06E1"],
+    ["0.7", "7e-1", "70E-2"],
+    ["123.456", "1.23456e2", "123456e-3", "12345.6e-2", "0.123456e3"],
+    ["100", "1e2", "1E2", "1e+2", "1.0e2", "10e1", "100.0", "0.1e3", "1000e-1"],
+    ["0", "-0", "0.0", "-0.0", "0e0", "-0e0", "-0.0e1", "0E-1", "-0E-1", "0e5", "-0.000"],
+    ["1.5", "15e-1", "0.15e1", "1.50"],
+    ["-2.5", "-25e-1", "-0.25e1", "-250e-2"],
+    ["0.1", "1e-1", "10e-2", "0.01e1"],
+    ["1.1", "11e-1", "0.11e1", "110e-2"],
+    ["0.07", "7e-2", "0.7e-1"],
+    ["4.35", "435e-2", "43.5e-1"],
+    ["1e-7", "0.0000001", "10e-8"],
+]
+
+
+def number_spelling_doc():
+    vals = [("i", 0), f_(0.0), "nz", f_(0.3), f_(0.6), f_(0.7), f_(123.456), ("i", 100), f_(100.0), f_(1.5), f_(-2.5), f_(0.1), f_(1.1),
+            f_(0.07), f_(4.35), f_(1e-7), f_(0.30000000000000004), f_(0.29999999999999993), f_(0.6000000000000001), f_(0.7000000000000001),
+            f_(123.45600000000002), ("i", 99), ("i", 101), ("i", 1), ("i", -1), f_(-0.5), f_(1e-200), f_(-1e-200), S("0.3"), S("0"), "null", ("b", 0)]
+    return ("a",) + tuple(vals)
+
+
+def number_spelling_cases():
+    """(group, text) for every spelling of each number, each operator, literal on either side: equivalent spellings of one number
+    must keep the same elements"""
+    out = []
+    for gi, grp in enumerate(NUM_SPELLINGS):
+        for op in ("==", "!=", "<", "<=", ">", ">="):
+            for side in (0, 1):
+                for sp in grp:
+                    text = "$[?@ %s %s]" % (op, sp) if side == 0 else "$[?%s %s @]" % (sp, op)
+                    out.append(("n%d_%s_%d" % (gi, op, side), text))
+    return out
+
+
 def scale_pairs():
     """deterministic (query, document) pairs on LARGE inputs: arrays and objects of several hundred entries, unions and
     logical chains of dozens of operands, long non-ASCII strings, deep nesting -- what a size-triggered fast path, inline
@@ -631,6 +668,28 @@ class C04(EvalProp):
                        ("value", ("argt", ("rel", ("sel", ("name", S("x"))), ("sel", "wild"))))):
                 out.append(mk(filt(("cmp", op, ("fn", fn), y)), pairs_doc, {"table": "function-query", "op": op}))
                 out.append(mk(filt(("cmp", op, y, ("fn", fn))), pairs_doc, {"table": "query-function", "op": op}))
+        # objects whose member names look like quoted or escaped text: equality is on the names as they are
+        def om(**kw):
+            return o_(**kw)
+        def od(d):
+            ks = sorted(d, key=lambda k: [ord(c) for c in k])
+            return ("o",) + tuple((S(k), d[k]) for k in ks)
+        one = ("i", 1)
+        objs = [od({"'k'": one}), od({"k": one}), od({"'k'": one, "k": one}), od({"k": one, "z": ("i", 0)}), od({'"k"': one}), od({"'k'": one, "z": ("i", 0)}),
+                od({"'": one}), od({"''": one}), od({"": one}), od({"'k": one}), od({"k'": one}), od({"a\\\\b": one}), od({"a\\b": one}), od({"a/b": one}),
+                od({"a\\/b": one}), od({" k": one}), od({"k ": one}), od({"k": ("i", 2)}), od({'"k"': one, "k": one}), od({"0": one}), od({"'0'": one}),
+                od({"k": od({"'j'": one})}), od({"k": od({"j": one})}), ("a", od({"'k'": one})), ("a", od({"k": one}))]
+        oelems = [o_(x=a, y=b) for a in objs for b in objs]
+        odoc = ("a",) + tuple(oelems)
+        for op in ("eq", "ne"):
+            out.append(mk(filt(("cmp", op, x, y)), odoc, {"table": "odd-named-objects", "op": op}))
+        return out
+
+    def cases(self):
+        out = super().cases()
+        ndoc = number_spelling_doc()
+        for j, (grp, text) in enumerate(number_spelling_cases()):
+            out.append(Case("ns%d" % j, "STR", [S(text), ndoc], {"table": "number-spellings", "query": text}, impl=("E2E", [S(text), ndoc])))
         return out
 
     def known_class(self, c, ans, I, M, R, S_, K):
@@ -1194,6 +1253,10 @@ class C13(EvalProp):
                 out.append(Case("g%s%d_%d" % (tag, gi, j), "EVAL", [q2, d], {"group": tag + str(gi), "query": text}, impl=("E2E", [S(text), d])))
             gi += 1
         out.extend(self.slot_groups(tag))
+        # number spellings at string level: exponent forms, trailing zeros, the spellings of (negative) zero
+        ndoc = number_spelling_doc()
+        for j, (grp, text) in enumerate(number_spelling_cases()):
+            out.append(Case("n%s%d" % (tag, j), "STR", [S(text), ndoc], {"group": tag + grp, "query": text, "kind": "numbers"}, impl=("E2E", [S(text), ndoc])))
         return out
 
     SLOT_DOC = None
@@ -1356,6 +1419,17 @@ class C09(PropCheck):
             for text, why in (("%s['105']" % pre, "index-as-name"), ("%s[-1]" % pre, "negative"), ("%s[0105]" % pre, "leading-zero"), ("%s[1 05]" % pre, "blank-in-index")):
                 out.append(Case("c%d" % cid, "REF", [d, S(text), self.rng.choice(self.REPL)], {"path": text, "why": why, "plain": True}))
                 cid += 1
+        # indices that wrap around a narrower integer type must not resolve (2^8, 2^16, 2^31, 2^32, 2^33, 2^48 + r, up to 2^53-1)
+        small = ("a", S("zero"), S("one"), S("two"))
+        for d, pre in ((small, "$"), (o_(a=small), "$['a']"), (big, "$")):
+            for sh in (8, 16, 31, 32, 33, 48, 52):
+                for r in (0, 1, 2):
+                    for i in ((1 << sh) + r, (3 << sh) + r if sh < 51 else (1 << 53) - 1 - r):
+                        if d is big and i < 1234:
+                            continue
+                        out.append(Case("c%d" % cid, "REF", [d, S("%s[%d]" % (pre, i)), self.rng.choice(self.REPL)],
+                                        {"path": "%s[%d]" % (pre, i), "why": "index-wrap", "plain": True}))
+                        cid += 1
         huge = ("a",) + tuple(("i", i % 97) for i in range(12500))
         for i in (9999, 10000, 10001, 10100, 11011, 12345, 12354, 12499, 12500, 123450):
             out.append(Case("c%d" % cid, "REF", [huge, S("$[%d]" % i), self.rng.choice(self.REPL)], {"path": "$[%d]" % i, "why": "long-array", "plain": True}))
